@@ -416,6 +416,16 @@ def oracle(before_lv, before_radixes, before_depth0, c, k):
                     f'qudit {q} position {i}: input {tb[q][i]} '
                     f'output {ta[q][i]}')
                 break
+    # the public unfolding (observable named by the property) agrees with the
+    # harness' own recursive unfolding of the output
+    try:
+        u = c.copy()
+        u.unfold_all()
+        if timelines(leaves(u), n) != timelines(after, n):
+            v['unfold-all-differs'] = 'unfold_all() of the output'
+    except Exception as e:
+        v['unfold-all-differs'] = 'unfold_all() of the output raised ' + \
+            repr(e)[:200]
     # barrier-like ops that were outside blocks (depth 0) before must stay so
     inside = [x for x in after if x[4] and x[3] > 0]
     if inside:
@@ -705,6 +715,8 @@ WHAT = {
                       'invariants',
     'unitary-changed': 'the unitary of the output differs from the input',
     'radixes': 'the output circuit has different radixes',
+    'unfold-all-differs': 'Circuit.unfold_all() of the returned circuit does '
+                          'not give the operation sequences its blocks hold',
 }
 
 
